@@ -32,7 +32,7 @@ class Foo(HasTraits):
 
 
 KINDS = ["const", "anylist", "anydict", "list", "dict", "set", "inst", "factory", "dyn", "tuplelist", "tuple3",
-         "unionlist", "dictlist", "listlist", "anysublist", "anyodict"]
+         "unionlist", "dictlist", "listlist", "anysublist", "anyodict", "dynenumdyn"]
 
 
 class Tags(list):
@@ -46,6 +46,10 @@ def decl(kind):
         return Any([1, 2]), [1, 2]
     if kind == "anydict":
         return Any({"a": 1}), {"a": 1}
+    if kind == "dynenumdyn":
+        # a PROPERTY-style trait (its value lives in a cache slot) whose default comes from a method
+        from traits.api import Enum
+        return Enum(values="dyn_opts"), 2
     if kind == "anysublist":
         return Any(Tags([1, 2])), [1, 2]
     if kind == "anyodict":
@@ -76,7 +80,7 @@ def decl(kind):
     raise AssertionError(kind)
 
 
-ASSIGN = {"anysublist": [3], "anyodict": {"b": 2}, "const": 1, "anylist": [3], "anydict": {"b": 2}, "list": [3], "dict": {"b": 2}, "set": {3}, "inst": None,
+ASSIGN = {"dynenumdyn": 3, "anysublist": [3], "anyodict": {"b": 2}, "const": 1, "anylist": [3], "anydict": {"b": 2}, "list": [3], "dict": {"b": 2}, "set": {3}, "inst": None,
           "factory": [3], "dyn": [3], "tuplelist": ([3], 1), "tuple3": ("s", {"q": 1}, 2), "unionlist": [3],
           "dictlist": {"q": [3]}, "listlist": [[3]]}
 
@@ -119,6 +123,10 @@ OP = st.one_of(
     st.tuples(st.just("xl_otc"), st.integers(0, 4)), st.tuples(st.just("xl_mut"), st.integers(0, 4)),
     # item-level handlers on a declared container attribute (for Union members the items trait only appears on demand)
     st.tuples(st.just("otc_items"), st.integers(0, 4), st.integers(0, 12)),
+    # names served by a WILDCARD trait (v_*): observed (optionally) on one instance before they were ever used, then used
+    st.tuples(st.just("wobs"), st.integers(0, 4), st.sampled_from(["v_left", "v_right"])),
+    st.tuples(st.just("wuse"), st.integers(0, 4), st.sampled_from(["v_left", "v_right"]), st.booleans()),
+    st.tuples(st.just("wuse"), st.integers(0, 4), st.sampled_from(["v_left", "v_right"]), st.booleans()),
     st.tuples(st.just("remove_trait"), st.integers(0, 4)),
     st.tuples(st.just("query"), st.integers(0, 4)),
     st.tuples(st.just("new"), st.booleans()),
@@ -147,6 +155,16 @@ def run(case, ctx):
         t, d = decl(k)
         ns[nm] = t
         model_default[nm] = d
+        if k == "dynenumdyn":
+            ns["dyn_opts"] = List([1, 2, 3])
+
+            def mke(nm):
+                def _d(self):
+                    key = (self.__dict__.setdefault("_serial", -1 - len(dyncalls)), nm)
+                    dyncalls[key] = dyncalls.get(key, 0) + 1
+                    return 2
+                return _d
+            ns["_%s_default" % nm] = mke(nm)
         if k == "dyn":
             def mk(nm):
                 def _d(self):
@@ -167,6 +185,7 @@ def run(case, ctx):
                 log.append((self.__dict__.get("_serial"), nm + "_items"))
             return _c
         ns["_%s_items_changed" % nm] = mki(nm)
+    ns["v_"] = Float(1.5)            # every undeclared name v_<something> is a Float
     Base = type("Base", (HasTraits,), ns)
     subns = {}
     sub_default = dict(model_default)
@@ -229,10 +248,13 @@ def run(case, ctx):
 
     def raw_defs(oo):
         """Trait definitions observable on an instance, events included (trait_names() filters events out)."""
-        return (sorted(oo._instance_traits()), tuple(n for n in probe_names if oo.trait(n) is not None))
+        return (sorted(n for n in oo._instance_traits() if not n.startswith("v_")),
+                tuple(n for n in probe_names if oo.trait(n) is not None))
 
     def raw_class():
-        return tuple((sorted(c.__class_traits__), sorted(c.__prefix_traits__)) for c in (Base, Sub))
+        # (names resolved through the wildcard are cached in the class table on first use: not a declared definition)
+        return tuple((sorted(n for n in c.__class_traits__ if not n.startswith("v_") or n == "v_"), sorted(c.__prefix_traits__))
+                     for c in (Base, Sub))
     raw_base = raw_class()
 
     for op in case["ops"]:
@@ -246,7 +268,25 @@ def run(case, ctx):
         del log[:]
         defs_before = [raw_defs(oo) if jj != j else None for jj, oo in enumerate(insts)]
         what = "op=%r on instance #%d (%s), kinds=%r" % (op, j, m["cls"].__name__, kinds)
-        if k in ("xl_otc", "xl_mut"):
+        if k in ("wobs", "wuse"):
+            from traits.observation.api import trait as _otrait
+            wname = op[2]
+            if k == "wobs":
+                f = mk_obs(o.__dict__["_serial"])
+                keep.append(f)
+                o.observe(f, _otrait(wname, optional=True))
+                ctx.label("wildcard-name-observed")
+            else:
+                if op[3]:
+                    setattr(o, wname, getattr(o, wname) + 1.0)
+                else:
+                    if getattr(o, wname) != m["vals"].get(wname, 1.5):
+                        ctx.fail("isolation/value", "%s reads %r, expected %r: %s" % (wname, getattr(o, wname), m["vals"].get(wname, 1.5), what))
+                m["vals"][wname] = getattr(o, wname)
+                ctx.label("wildcard-name-used")
+            interesting = True
+            nm = None
+        elif k in ("xl_otc", "xl_mut"):
             if "xl" not in m["extra"]:
                 continue
             if k == "xl_otc":
@@ -404,7 +444,8 @@ def run(case, ctx):
                     cur = oo.__dict__.get(n2, None) if n2 in oo.__dict__ else getattr(oo, n2)
                     if plain(cur) != v2:
                         ctx.fail("isolation/value", "instance #%d.%s changed to %r (model %r) by %s" % (jj, n2, plain(cur), v2, what))
-                extra_names = set(oo.trait_names()) - set(class_names[1] if models[jj]["cls"] is Sub else class_names[0]) - models[jj]["extra"]
+                extra_names = {n for n in oo.trait_names() if not n.startswith("v_")} - \
+                    set(class_names[1] if models[jj]["cls"] is Sub else class_names[0]) - models[jj]["extra"]
                 if extra_names:
                     ctx.fail("isolation/trait-definitions", "instance #%d lists traits %r that were only added elsewhere: %s"
                              % (jj, sorted(extra_names), what))
